@@ -18,7 +18,8 @@ PROPS = {
     "C04": dict(mix=[("plain", 1.0, {"features": {"max_fcp": 5, "future": True}})], mc=["MC_runahead", "MC_runahead:MC_runahead_live"]),
     "C05": dict(mix=[("plain", 0.6, {"features": {"queues": "always", "max_tasks": 5}}),
                      ("cmds", 0.4, {"features": {"queues": "always"}, "kinds": ["trigger"]})], mc=["MC_queue", "MC_base"]),
-    "C07": dict(mix=[("plain", 0.6, {"features": {"future": True}}), ("stopcmds", 0.4, {})], mc=["MC_base"]),
+    "C07": dict(mix=[("plain", 0.4, {"features": {"future": True}}), ("stopcmds", 0.3, {}),
+                     ("stopcmds", 0.3, {"features": {"future": "always", "max_fcp": 6}})], mc=["MC_base"]),
     "C09": dict(mix=[("plain", 0.4, {}), ("faults", 0.6, {"features": {"retries": "always"}})], mc=["MC_msgs"]),
     "C10": dict(mix=[("faults", 0.5, {}), ("cmds", 0.5, {"kinds": ["trigger"], "dups": True,
                                                              "features": {"retries": "always", "queues": "always"}})], mc=["MC_msgs"]),
@@ -27,22 +28,27 @@ PROPS = {
                      ("cmds", 0.3, {"kinds": ["reload_edit", "reload_edit", "trigger"], "features": {"future": "always", "max_tasks": 5}})],
                 mc=["MC_base"]),
     "C06": dict(mix=[("hold", 1.0, {})], mc=["MC_hold"]),
-    "C43": dict(mix=[("stopcmds", 0.8, {}), ("restart", 0.2, {})], mc=["MC_stop"]),
+    "C43": dict(mix=[("stopcmds", 0.6, {}), ("stopcmds", 0.2, {"features": {"future": "always", "max_fcp": 6}}),
+                     ("restart", 0.2, {})], mc=["MC_stop"]),
     "C45": dict(mix=[("abstrig", 1.0, {})], mc=["MC_abs"]),
     "C46": dict(mix=[("warm", 1.0, {})], mc=["MC_warm"]),
     "C08": dict(mix=[("cmds", 0.5, {"kinds": ["trigger", "trigger", "set"]}),
                      ("cmds", 0.5, {"kinds": ["trigger", "set"], "restart": True})], mc=["MC_flows"]),
     "C27": dict(mix=[("cmds", 1.0, {"kinds": ["reload"]})], mc=["MC_reload"]),
-    "C28": dict(mix=[("cmds", 1.0, {"kinds": ["trigger"]})], mc=["MC_trigger"]),
+    "C28": dict(mix=[("cmds", 0.5, {"kinds": ["trigger"]}),
+                     ("cmds", 0.25, {"kinds": ["group_trigger"]}),
+                     ("cmds", 0.25, {"kinds": ["group_trigger", "retrigger_failed", "retrigger_failed"], "mode": "any",
+                                     "features": {"custom": "always", "started": True}})], mc=["MC_trigger"]),
     "C29": dict(mix=[("cmds", 1.0, {"kinds": ["set"]})], mc=["MC_set"]),
-    "C30": dict(mix=[("cmds", 1.0, {"kinds": ["remove", "remove", "trigger"]})], mc=["MC_remove"]),
+    "C30": dict(mix=[("cmds", 1.0, {"kinds": ["remove", "remove", "trigger", "retrig_remove"]})], mc=["MC_remove"]),
     "C25": dict(mix=[("plain", 0.3, {"policy": {"datastore": True}}), ("faults", 0.2, {"policy": {"datastore": True}}),
                      ("cmds", 0.3, {"policy": {"datastore": True}}), ("hold", 0.2, {"policy": {"datastore": True}})],
                 mc=["MC_base"]),
     "C33": dict(mix=[("xtrig", 1.0, {})], mc=[]),
     "C19": dict(mix=[("restart", 1.0, {})], mc=["MC_restart"]),
     "C20": dict(mix=[("crash", 1.0, {})], mc=["MC_crash"]),
-    "C31": dict(mix=[("plain", 1.0, {"features": {"sequential": "always"}})], mc=["MC_seq", "MC_base"]),
+    "C31": dict(mix=[("plain", 0.6, {"features": {"sequential": "always"}}),
+                     ("warm", 0.4, {"features": {"sequential": "always"}})], mc=["MC_seq", "MC_base"]),
 }
 N_RUNS = {"quick": 96, "thorough": 1500}
 SLOW_MC = {"MC_queue", "MC_seq"}     # > 30 s: thorough tier only
@@ -103,6 +109,8 @@ def judge(ctx, runs, verdicts, jobs):
         for clause, idx in v["viol"]:
             if clause.startswith("Conf_"):
                 divergences[clause] += 1
+                if os.environ.get("VERIF_SHOW_DIV"):
+                    print(f"  divergence {clause} seed={r['seed']} scenario={job['scenario']} event=#{idx} job={json.dumps({k: v2 for k, v2 in job.items() if k != 'scratch'})}")
                 continue
             if not clause.startswith(prop + "_"):
                 continue
